@@ -77,19 +77,21 @@ theorem matches_content_type (X : ImpGen.Ext) (r : Route) (ct : Str) :
           show _ = some (pieceLoop _ _)
           content_loop r
         · rfl
-      · simp only [Bool.not_true, Bool.false_eq_true, if_false]
+      · -- the default methods: a chain of `==` or a loop over a slice literal — both sides become the chain
         have hi : idempotentMethods.contains r.method =
-            (r.method == "GET".toList || r.method == "HEAD".toList || r.method == "OPTIONS".toList ||
-              r.method == "DELETE".toList || r.method == "TRACE".toList) := by
+            (r.method == "GET".toList || (r.method == "HEAD".toList || (r.method == "OPTIONS".toList ||
+              (r.method == "DELETE".toList || r.method == "TRACE".toList)))) := by
           simp only [idempotentMethods, List.map_cons, List.map_nil, List.contains_cons, List.contains_nil,
             Bool.or_false, Bool.or_assoc]
         rw [hi]
-        cases hb : (r.method == "GET".toList || r.method == "HEAD".toList || r.method == "OPTIONS".toList ||
-              r.method == "DELETE".toList || r.method == "TRACE".toList)
-        · simp only [Bool.false_eq_true, if_false]
+        try simp only [Bool.not_true, Bool.false_eq_true, if_false, if_true, List.contains_cons, List.contains_nil,
+          Bool.or_false, Bool.or_assoc]
+        cases hb : (r.method == "GET".toList || (r.method == "HEAD".toList || (r.method == "OPTIONS".toList ||
+              (r.method == "DELETE".toList || r.method == "TRACE".toList))))
+        · try simp only [Bool.false_eq_true, if_false]
           show _ = some (pieceLoop _ _)
           content_loop r
-        · rfl
+        · first | rfl | simp only [if_true]; rfl
   · rfl
 
 end T5
